@@ -41,6 +41,46 @@ TOOLS = {
 }
 
 
+# File tools.  name -> (inputs, outputs); rendered by render_file_tool; "name" (the basename written) comes with the step
+FILE_TOOLS = {
+    "mkfile": ([("b", "string")], [("o", "File")]),        # ExpressionTool returning a file literal
+    # "RFile" = a File written by a CommandLineTool (rendered as File): cwltool cannot loadContents a file LITERAL
+    # (job / ExpressionTool literal with `contents`: "Reading _:id"), so fcontents only reads RFiles
+    "ccat": ([("a", "File")], [("o", "RFile")]),           # CommandLineTool: cat a > name
+    "ccp": ([("a", "File")], [("o", "RFile")]),            # CommandLineTool: cp a name   (glob output)
+    "cwc": ([("a", "File")], [("o", "int")]),              # CommandLineTool: wc -c < a   (outputEval)
+    "fcontents": ([("a", "RFile")], [("o", "string")]),    # ExpressionTool with loadContents
+}
+
+
+def render_file_tool(run):
+    k, name = run["tool"], run.get("name")
+    if k == "mkfile":
+        return {"class": "ExpressionTool", "requirements": {"InlineJavascriptRequirement": {}},
+                "inputs": {"b": {"type": "string"}}, "outputs": {"o": {"type": "File"}},
+                "expression": "${return {\"o\": {\"class\": \"File\", \"basename\": \"%s\", \"contents\": inputs.b}};}" % name}
+    if k == "ccat":
+        return {"class": "CommandLineTool", "baseCommand": "cat",
+                "inputs": {"a": {"type": "File", "inputBinding": {"position": 1}}},
+                "stdout": name, "outputs": {"o": {"type": "stdout"}}}
+    if k == "ccp":
+        return {"class": "CommandLineTool", "baseCommand": "cp",
+                "inputs": {"a": {"type": "File", "inputBinding": {"position": 1}}},
+                "arguments": [{"position": 2, "valueFrom": name}],
+                "outputs": {"o": {"type": "File", "outputBinding": {"glob": name}}}}
+    if k == "cwc":
+        return {"class": "CommandLineTool", "requirements": {"InlineJavascriptRequirement": {}},
+                "baseCommand": ["wc", "-c"], "stdin": "$(inputs.a.path)",
+                "inputs": {"a": {"type": "File"}}, "stdout": "wc_count.txt",
+                "outputs": {"o": {"type": "int", "outputBinding": {"glob": "wc_count.txt", "loadContents": True,
+                                                                  "outputEval": "$(parseInt(self[0].contents))"}}}}
+    if k == "fcontents":
+        return {"class": "ExpressionTool", "requirements": {"InlineJavascriptRequirement": {}},
+                "inputs": {"a": {"type": "File", "loadContents": True}}, "outputs": {"o": {"type": "string"}},
+                "expression": "${return {\"o\": inputs.a.contents};}"}
+    raise ValueError(k)
+
+
 def subst(t, T):
     if t == "T":
         return T
@@ -72,6 +112,8 @@ def tkey(t):
 
 
 def cwl_type(t):
+    if t == "RFile":
+        return "File"
     if isinstance(t, str):
         return t
     if "arr" in t:
@@ -99,6 +141,8 @@ def render_when(w):
         return "$(inputs.%s !== null)" % w[1]
     if k == "raw":
         return "$(inputs.%s)" % w[1]
+    if k == "lt":
+        return "$(inputs.%s < %d)" % (w[1], w[2])
     raise ValueError(w)
 
 
@@ -117,6 +161,8 @@ def render_vf(v):
 
 
 def render_tool(run):
+    if run["tool"] in FILE_TOOLS:
+        return render_file_tool(run)
     ins, outs, js = TOOLS[run["tool"]]
     T = run.get("T", "int")
     return {
@@ -132,6 +178,7 @@ def render_wf(wf, top=True):
     doc = {"class": "Workflow"}
     if top:
         doc["cwlVersion"] = "v1.2"
+        doc["$namespaces"] = {"cwltool": "http://commonwl.org/cwltool#"}
     doc["requirements"] = {
         "InlineJavascriptRequirement": {}, "ScatterFeatureRequirement": {},
         "MultipleInputFeatureRequirement": {}, "StepInputExpressionRequirement": {},
@@ -175,6 +222,11 @@ def render_wf(wf, top=True):
                 sd["scatterMethod"] = s["method"]
         if s.get("when"):
             sd["when"] = render_when(s["when"])
+        if s.get("loop"):
+            lp = s["loop"]
+            sd["requirements"] = {"cwltool:Loop": {"loopWhen": render_when(lp["when"]),
+                                                   "loop": {k: o for k, o in lp["map"]},
+                                                   "outputMethod": "all" if lp["all"] else "last"}}
         sd["out"] = [o["id"] for o in s["out"]]
         doc["steps"][s["id"]] = sd
     return doc
@@ -191,6 +243,9 @@ def gen_value(rng, t, lenhint=None):
         return "".join(rng.choice(ALPHA) for _ in range(rng.randrange(0, 4)))
     if t == "boolean":
         return rng.random() < 0.5
+    if t == "File":
+        txt = "".join(rng.choice(ALPHA + "\n") for _ in range(rng.randrange(0, 12)))
+        return {"class": "File", "basename": "in%d.txt" % rng.randrange(10**6), "contents": txt}
     if "arr" in t:
         n = lenhint if lenhint is not None else rng.choice([0, 1, 2, 2, 3, 3, 4, 2, 3, 1, rng.choice([11, 12, 13])])
         return [gen_value(rng, t["arr"]) for _ in range(n)]
@@ -207,9 +262,13 @@ BASE = ["int", "int", "int", "string", "boolean"]
 class WfGen:
     """Generates one workflow; inputs are created on demand (ensures every link is well-typed)."""
 
-    def __init__(self, rng, depth, prefix=""):
+    def __init__(self, rng, depth, prefix="", root=None):
         self.rng = rng
         self.depth = depth
+        self.root = root or self
+        self.nfile = 0
+        self.loop_outs = []
+        self.has_file = False
         self.env = []          # (ref, type, lentag)
         self.inputs = []       # workflow inputs
         self.values = {}       # input id -> value (top-level) / used for sub-workflow step binding
@@ -251,8 +310,9 @@ class WfGen:
     def get_ref(self, t, lentag=None):
         """A ref of exactly type t (creating a workflow input when none exists / by chance)."""
         k = tkey(t)
-        c = [e for e in self.env if tkey(e[1]) == k and (lentag is None or e[2] == lentag)]
-        if c and self.rng.random() < 0.8:
+        c = [e for e in self.env if (tkey(e[1]) == k or (t == "File" and e[1] == "RFile"))
+             and (lentag is None or e[2] == lentag)]
+        if c and (self.rng.random() < 0.8 or t == "RFile"):
             e = self.rng.choice(c)
             return e[0], e[2]
         lh = lentag[1] if lentag and lentag[0] == "L" else None
@@ -313,7 +373,7 @@ class WfGen:
                     rec["list"] = True
                 rec["pv"] = "all_non_null"
                 return rec, False, None
-        if not is_opt(t) and r < 0.5 and r >= 0.35 and not (is_arr(t) and is_opt(t["arr"])):
+        if not is_opt(t) and r < 0.5 and r >= 0.35 and not (is_arr(t) and is_opt(t["arr"])) and t != "RFile":
             # (cwltool's static checker rejects first/the_only_non_null over sources of type (T?)[]: outside the common domain)
             # first_non_null / the_only_non_null over optional sources
             n = 1 if rng.random() < 0.05 else rng.choice([2, 2, 3])
@@ -327,7 +387,7 @@ class WfGen:
                     rec["lm"] = "merge_nested"   # a single source is wrapped explicitly, so that the pick sees a list
             rec["pv"] = pv
             return rec, False, None
-        if r < 0.6 and not is_arr(t):
+        if r < 0.6 and not is_arr(t) and t not in ("File", "RFile"):
             # no source: default only / or optional source with default
             if rng.random() < 0.5 and not is_opt(t):
                 rec["src"] = [self.get_ref(opt(t))[0]]
@@ -357,16 +417,77 @@ class WfGen:
         rec["src"] = [ref]
         return rec, False, None
 
+    def next_file(self):
+        self.nfile += 1
+        return self.nfile
+
+    # -- a cwltool:Loop step (no scatter, no when, no valueFrom on it: the extension forbids / complicates them)
+    def gen_loop_step(self, sid):
+        rng = self.rng
+        all_ = rng.random() < 0.5
+        plain = lambda i, ref: {"id": i, "src": [ref], "list": False, "lm": None, "pv": None, "vf": None}   # noqa: E731
+        if self.depth > 0 and rng.random() < 0.35:
+            # scatter INSIDE the loop: the looped process is a subworkflow whose inner step scatters over xs;
+            # loop variables: xs := o (the scattered results), t := total (their sum); while t < K
+            k = rng.choice([1, 2, 3])
+            inner = {"id": "s0", "run": {"tool": "add"}, "in": [plain("a", "xs"), plain("b", "k")], "scatter": ["a"],
+                     "method": None, "when": None, "out": [{"id": "o", "type": arr("int")}]}
+            tot = {"id": "s1", "run": {"tool": "sum"}, "in": [plain("a", "s0/o")], "scatter": [], "method": None,
+                   "when": None, "out": [{"id": "o", "type": "int"}]}
+            sub = {"inputs": [{"id": "xs", "type": arr("int")}, {"id": "k", "type": "int"}, {"id": "t", "type": "int"}],
+                   "steps": [inner, tot],
+                   "outputs": [{"id": "o", "type": arr("int"), "src": ["s0/o"], "list": False, "lm": None, "pv": None},
+                               {"id": "total", "type": "int", "src": ["s1/o"], "list": False, "lm": None, "pv": None}]}
+            # a non-empty array of small ints (an empty one would never let the total grow: an endless loop in every runner)
+            ref, _ = self.new_input(arr("int"), lenhint=rng.choice([1, 2, 3]), allow_default=False)
+            step_in = [plain("xs", ref),
+                       {"id": "k", "src": [], "list": False, "lm": None, "pv": None, "vf": None, "default": k},
+                       {"id": "t", "src": [], "list": False, "lm": None, "pv": None, "vf": None, "default": 0}]
+            loop = {"map": [["xs", "o"], ["t", "total"]], "when": ["lt", "t", rng.choice([1, 5, 12])], "all": all_}
+            run = {"wf": sub}
+            sig_out = [("o", arr("int")), ("total", "int")]
+        else:
+            b = rng.choice([1, 2, 3, 5])
+            ref, _ = self.get_ref("int")
+            step_in = [plain("a", ref),
+                       {"id": "b", "src": [], "list": False, "lm": None, "pv": None, "vf": None, "default": b}]
+            K = rng.choice([-5, 0, 5, 10, 15]) if b >= 2 else rng.choice([-5, 0, 5, 8])
+            loop = {"map": [["a", "o"]], "when": ["lt", "a", K], "all": all_}
+            run = {"tool": "add"}
+            sig_out = [("o", "int")]
+        outs = [{"id": o, "type": (arr(t) if all_ else opt(t))} for o, t in sig_out]
+        step = {"id": sid, "run": run, "in": step_in, "scatter": [], "method": None, "when": None, "out": outs, "loop": loop}
+        self.steps.append(step)
+        # the static checkers of both runners type a loop output in their own ways ((T?)[] / nested arrays), so a loop
+        # output is only exported as a workflow output, never consumed by another step
+        for o in outs:
+            self.loop_outs.append(("%s/%s" % (sid, o["id"]), o["type"]))
+        return step
+
     # -- one step
     def gen_step(self, sid):
         rng = self.rng
         if self.depth > 0 and rng.random() < 0.18:
-            sub = WfGen(rng, self.depth - 1)
+            sub = WfGen(rng, self.depth - 1, root=self.root)
             subwf = sub.generate(rng.randrange(1, 3), top=False)
+            self.has_file = self.has_file or sub.has_file
+            sub_has_file = sub.has_file
             sig_in = [(i["id"], i["type"]) for i in subwf["inputs"]]
             sig_out = [(o["id"], o["type"]) for o in subwf["outputs"]]
             run = {"wf": subwf}
             # inputs with a default and an optional type may be left unbound
+        elif rng.random() < 0.07:
+            return self.gen_loop_step(sid)
+        elif rng.random() < 0.10:
+            name = rng.choice(sorted(FILE_TOOLS))
+            if name == "fcontents" and not any(e[1] == "RFile" for e in self.env):
+                name = "ccat"
+            ins, outs = FILE_TOOLS[name]
+            run = {"tool": name}
+            if name in ("mkfile", "ccat", "ccp"):
+                run["name"] = "f%d.txt" % self.root.next_file()
+            sig_in, sig_out = list(ins), list(outs)
+            self.has_file = True
         else:
             name = rng.choice(sorted(TOOLS))
             ins, outs, _ = TOOLS[name]
@@ -377,6 +498,8 @@ class WfGen:
             sig_in = [(i, subst(t, T)) for i, t in ins]
             sig_out = [(o, subst(t, T)) for o, t in outs]
         allow_scatter = rng.random() < 0.55
+        if run.get("tool") in FILE_TOOLS or ("wf" in run and sub_has_file) or any("File" in tkey(t) for _, t in sig_in + sig_out):
+            allow_scatter = False     # same-named files of the scatter elements would collide in the output directory
         method = rng.choice(["dotproduct", "dotproduct", "nested_crossproduct", "flat_crossproduct"])
         step_in, scat, dot_tag = [], [], None
         for iid, t in sig_in:
@@ -444,6 +567,9 @@ class WfGen:
         outs = []
         refs = [e for e in self.env if "/" in e[0]]
         n = 0
+        for ref, t in self.loop_outs:
+            outs.append({"id": "o%d" % n, "type": t, "src": [ref], "list": False, "lm": None, "pv": None})
+            n += 1
         dangling = refs[-1][0].split("/")[0] if refs and rng.random() < 0.06 else None
         for ref, t, _ in refs:
             if ref.split("/")[0] != dangling:
@@ -451,7 +577,10 @@ class WfGen:
                 n += 1
         # derived outputs: merges and picks
         for _ in range(rng.randrange(0, 3)):
-            ref, t, _ = rng.choice(self.env)
+            cands = [e for e in self.env if "File" not in tkey(e[1])]
+            if not cands:
+                break
+            ref, t, _ = rng.choice(cands)
             same = [e[0] for e in self.env if tkey(e[1]) == tkey(t)]
             k = 1 if rng.random() < 0.05 else rng.choice([2, 2, 3])
             while len(same) < k:
